@@ -8,25 +8,50 @@ import (
 )
 
 func defC06(mode int) *ph.Def {
-	return &ph.Def{Mode: mode, Unknown: 2, Root: ph.CmdDef{Name: "prog",
+	return &ph.Def{Mode: mode, Unknown: 2, Help: "help", HelpAliases: []string{"?", "h"}, Root: ph.CmdDef{Name: "prog",
 		Opts: []ph.OptDef{
-			{Name: "bool", Kind: ph.Bool, Aliases: []string{"b"}},
+			{Name: "bool", Kind: ph.Bool, Aliases: []string{"b", "é"}},
 			{Name: "str", Kind: ph.Str, Aliases: []string{"s", "string"}, Var: true, DefS: "D"},
 			{Name: "int", Kind: ph.Int, Var: true, DefI: 7, Env: "VERIF_C06_INT"},
 			{Name: "inc", Kind: ph.Incr, Aliases: []string{"i2"}, DefI: 1},
 			{Name: "list", Kind: ph.StrS, Min: 1, Max: 2, Aliases: []string{"l"}, Var: true},
 			{Name: "sc", Kind: ph.Bool, SetCalled: true},
 			{Name: "opt", Kind: ph.StrOpt, Aliases: []string{"o"}, DefS: "OD"},
-			{Name: "nb", Kind: ph.Bool, DefB: true, Var: true, Aliases: []string{"n"}},
+			{Name: "nb", Kind: ph.Bool, DefB: true, Var: true, Aliases: []string{"n", "ä"}}, // é and ä share their first byte
 		},
 		Cmds: []*ph.CmdDef{{Name: "c"}, {Name: "w", Unset: true}},
 	}}
 }
 
 // alias groups for the metamorphic relation
-var c06Groups = [][]string{{"bool", "b"}, {"str", "s", "string"}, {"inc", "i2"}, {"list", "l"}, {"opt", "o"}, {"nb", "n"}}
+var c06Groups = [][]string{{"bool", "b", "é"}, {"str", "s", "string"}, {"inc", "i2"}, {"list", "l"}, {"opt", "o"}, {"nb", "n", "ä"}, {"help", "?", "h"}}
 
-var c06Alpha = []string{"--bool", "--b", "--str", "--s", "--string", "--int", "--inc", "--i2", "--list", "--l", "--opt", "--o", "--sc", "--nb", "--n", "v", "5", "p", "--zz", "c", "w", "--str=w"}
+// long spellings of every name and alias, the short spelling (one dash, which means the same in all three modes for a
+// one-letter name without attached text) of some one-letter aliases including a multibyte one, the help option and its aliases
+var c06Alpha = []string{"--bool", "--b", "--str", "--s", "--string", "--int", "--inc", "--i2", "--list", "--l", "--opt", "--o", "--sc", "--nb", "--n", "v", "5", "p", "--zz", "c", "w", "--str=w",
+	"-b", "-é", "-s", "-o", "--help", "-?", "--h", "-ä"}
+
+// c06Key returns the option key a token spells (long form, or short form of a one-letter key) and whether it is such a token.
+func c06Key(t string) (string, bool) {
+	if strings.Contains(t, "=") {
+		return "", false
+	}
+	if strings.HasPrefix(t, "--") {
+		return t[2:], len(t) > 2
+	}
+	if strings.HasPrefix(t, "-") && len([]rune(t)) == 2 {
+		return t[1:], true
+	}
+	return "", false
+}
+
+// c06Spellings lists the mode-independent spellings of a key.
+func c06Spellings(key string) []string {
+	if len([]rune(key)) == 1 {
+		return []string{"--" + key, "-" + key}
+	}
+	return []string{"--" + key}
+}
 
 var c06Facets = ph.Facets{Err: true, ErrDetail: true, Remaining: true, Vals: true, Called: true, CalledAs: true}
 
@@ -37,10 +62,10 @@ func c06Subst(pc *parserCase, o *ph.Outcome, ex *ph.Expect) ([]string, int) {
 		return nil, 0
 	}
 	for i, t := range pc.Argv {
-		if !strings.HasPrefix(t, "--") || !ex.Consumed[i] {
+		key, isOpt := c06Key(t)
+		if !isOpt || !ex.Consumed[i] {
 			continue // only occurrences that name the option at the level where they stand
 		}
-		key := t[2:]
 		for _, g := range c06Groups {
 			in := false
 			for _, k := range g {
@@ -51,29 +76,31 @@ func c06Subst(pc *parserCase, o *ph.Outcome, ex *ph.Expect) ([]string, int) {
 			if !in {
 				continue
 			}
-			for _, alt := range g {
-				if alt == key {
-					continue
-				}
-				argv2 := append([]string{}, pc.Argv...)
-				argv2[i] = "--" + alt
-				p2 := ph.Build(pc.Def, pc.Env)
-				o2 := p2.Run(argv2, false)
-				p2.Close()
-				n++
-				if o.HasErr != o2.HasErr {
-					out = append(out, fmt.Sprintf("alias: %q fails=%v but with alias %q in place of %q fails=%v (%q / %q)", pc.Argv, o.HasErr, "--"+alt, t, o2.HasErr, o.ParseErr, o2.ParseErr))
-					continue
-				}
-				if o.HasErr {
-					continue
-				}
-				if !eqStr(o.Remaining, o2.Remaining) {
-					out = append(out, fmt.Sprintf("alias: remaining %q becomes %q when %q is replaced by its alias %q", o.Remaining, o2.Remaining, t, "--"+alt))
-				}
-				for k, v := range o.Vals {
-					if o2.Vals[k] != v || o2.Called[k] != o.Called[k] {
-						out = append(out, fmt.Sprintf("alias: option %s is %s (called=%v) but %s (called=%v) when %q is replaced by its alias %q", k, v, o.Called[k], o2.Vals[k], o2.Called[k], t, "--"+alt))
+			for _, altKey := range g {
+				for _, alt := range c06Spellings(altKey) {
+					if alt == t {
+						continue
+					}
+					argv2 := append([]string{}, pc.Argv...)
+					argv2[i] = alt
+					p2 := ph.Build(pc.Def, pc.Env)
+					o2 := p2.Run(argv2, false)
+					p2.Close()
+					n++
+					if o.HasErr != o2.HasErr {
+						out = append(out, fmt.Sprintf("alias: %q fails=%v but with alias %q in place of %q fails=%v (%q / %q)", pc.Argv, o.HasErr, alt, t, o2.HasErr, o.ParseErr, o2.ParseErr))
+						continue
+					}
+					if o.HasErr {
+						continue
+					}
+					if !eqStr(o.Remaining, o2.Remaining) {
+						out = append(out, fmt.Sprintf("alias: remaining %q becomes %q when %q is replaced by its alias %q", o.Remaining, o2.Remaining, t, alt))
+					}
+					for k, v := range o.Vals {
+						if o2.Vals[k] != v || o2.Called[k] != o.Called[k] {
+							out = append(out, fmt.Sprintf("alias: option %s is %s (called=%v) but %s (called=%v) when %q is replaced by its alias %q", k, v, o.Called[k], o2.Vals[k], o2.Called[k], t, alt))
+						}
 					}
 				}
 			}
@@ -96,7 +123,7 @@ func init() {
 	register(&Check{
 		ID:        "C06",
 		QuickSecs: 120, ThoroSecs: 1200,
-		Rule: "input-space exploration: every argv of length <= L over 22 tokens (every name and alias of 8 options of 6 kinds, half declared through *Var, one bound to an environment variable, one marked SetCalled; values, positional, unknown option, command, UnsetOptions wrapper command) x 3 modes x environment {unset, valid}; " +
+		Rule: "input-space exploration: every argv of length <= L-1 over 30 tokens and of length L over the first 22 of them (every name and alias of 8 options of 6 kinds, half declared through *Var, one bound to an environment variable, one marked SetCalled, one with a multibyte one-letter alias; short spellings of one-letter aliases; the help option of HelpCommand and its aliases; values, positional, unknown option, command, UnsetOptions wrapper command) x 3 modes x environment {unset, valid}; " +
 			"absolute: values (pointer, *Var target and Value() agree), Called, CalledAs compared with the reference model, untouched options keep defaults; metamorphic: replacing any occurrence of a name by any other alias of the same option changes nothing but CalledAs; " +
 			"distinct_nontrivial = distinct in-domain cases",
 		Assume: []string{"argv longer than L and other option sets are not covered"},
@@ -124,6 +151,22 @@ func init() {
 			}
 			c.Res.Bounds = map[string]any{"L": depth, "alphabet": c06Alpha, "configurations": len(cfgs)}
 			sw := &sweep{c: c, defs: defs, alpha: c06Alpha, depth: depth}
+			// the deepest layer only over the first 22 tokens (long spellings); every shorter argv over all 29
+			ext := map[string]bool{}
+			for _, t := range c06Alpha[22:] {
+				ext[t] = true
+			}
+			sw.filter = func(argv []string) bool {
+				if len(argv) < depth {
+					return true
+				}
+				for _, t := range argv {
+					if ext[t] {
+						return false
+					}
+				}
+				return true
+			}
 			sw.visit = func(def *ph.Def, argv []string) {
 				res := c.Res
 				pc := &parserCase{Check: "C06", Def: def, Env: envOf[def], Argv: argv}
@@ -165,7 +208,7 @@ func init() {
 	register(&Check{
 		ID:        "C12",
 		QuickSecs: 60, ThoroSecs: 300,
-		Rule: "complete product: 7 option kinds (bool, string, int, float64 and the optional-value forms) x 2-3 defaults x *Var or pointer form x 19 environment texts (unset, empty, valid, invalid, mixed case booleans, padded, equal to default, equal to the command-line value) x 7 command-line forms (absent, --n=v, --n v, -n v, bare --n, twice, inside a command) x 3 modes; " +
+		Rule: "complete product: 7 option kinds (bool, string, int, float64 and the optional-value forms) x 2-3 defaults x *Var or pointer form x 19 environment texts (unset, empty, valid, invalid, mixed case booleans, padded, equal to default, equal to the command-line value) x 7 command-line forms (absent, --n=v, --n v, -n v, bare --n, twice, inside a command) x 3 modes x {option declared at the root, option declared on a command, variable set after New() but before the declaration}; " +
 			"value, Called and CalledAs compared with the three-way precedence rule of the reference model; distinct_nontrivial = distinct in-domain cases",
 		Assume: []string{"other environment texts are not covered; invalid numeric environment text leaves Called unspecified (zone U11) and only the value is compared"},
 		Run: func(c *RunCtx) {
@@ -199,62 +242,73 @@ func init() {
 				for _, od := range kdef.defs {
 					for _, isVar := range []bool{false, true} {
 						for mode := 0; mode < 3; mode++ {
-							idx++
-							if !c.mine(idx) {
-								continue
-							}
-							o := od
-							o.Name, o.Kind, o.Var, o.Env = "n", kdef.k, isVar, "VERIF_C12_VAR"
-							def := &ph.Def{Mode: mode, Unknown: 0, Root: ph.CmdDef{Name: "prog", Opts: []ph.OptDef{o, {Name: "other", Kind: ph.Bool}}, Cmds: []*ph.CmdDef{{Name: "c"}}}}
-							res.States++
-							v := cliVal(kdef.k)
-							var clis [][]string
-							clis = append(clis, []string{}, []string{"--n"}, []string{"c", "--n"}, []string{"--other"})
-							if kdef.k != ph.Bool {
-								clis = append(clis, []string{"--n=" + v}, []string{"--n", v}, []string{"-n", v}, []string{"--n=" + v, "--n=" + v}, []string{"c", "--n=" + v})
-							} else {
-								clis = append(clis, []string{"-n"}, []string{"--n", "--n"})
-							}
-							for _, e := range envs {
-								var env map[string]string
-								if e != "\x00unset" {
-									env = map[string]string{"VERIF_C12_VAR": e}
+							for variant := 0; variant < 3; variant++ { // 0: option at the root; 1: option declared on a command; 2: variable set after New()
+								idx++
+								if !c.mine(idx) {
+									continue
 								}
-								for _, argv := range clis {
-									pc := &parserCase{Check: "C12", Def: def, Env: env, Argv: argv}
-									res.Evaluations++
-									res.Traces++
-									res.Transitions += int64(len(argv) + 1)
-									// zone U11 only leaves Called open after an invalid numeric text: still compare values
-									ex := ph.SpecParse(def, env, argv)
-									onlyU11 := len(ex.Unspec) == 1 && ex.Unspec[0] == "U11"
-									var msgs []string
-									if onlyU11 {
-										p := ph.Build(def, env)
-										out := p.Run(argv, false)
-										p.Close()
-										ex.Unspec = nil
-										msgs = ph.Compare(ex, out, ph.Facets{Err: true, Remaining: true, Vals: true})
-										res.count("cases_with_invalid_numeric_environment_text", 1)
-										res.count("in_domain_cases", 1)
-									} else {
-										var info specInfo
-										msgs, info = judgeSpec(pc, c06Facets, false)
-										if info.inDomain {
-											res.count("in_domain_cases", 1)
-											if env != nil && ex.CalledAs["/n"] == "VERIF_C12_VAR" {
-												res.count("in_domain_value_taken_from_environment", 1)
+								o := od
+								o.Name, o.Kind, o.Var, o.Env = "n", kdef.k, isVar, "VERIF_C12_VAR"
+								def := &ph.Def{Mode: mode, Unknown: 0, LateEnv: variant == 2, Root: ph.CmdDef{Name: "prog", Opts: []ph.OptDef{o, {Name: "other", Kind: ph.Bool}}, Cmds: []*ph.CmdDef{{Name: "c"}}}}
+								if variant == 1 {
+									def = &ph.Def{Mode: mode, Unknown: 0, Root: ph.CmdDef{Name: "prog", Opts: []ph.OptDef{{Name: "other", Kind: ph.Bool}}, Cmds: []*ph.CmdDef{{Name: "c", Opts: []ph.OptDef{o}}}}}
+								}
+								res.States++
+								v := cliVal(kdef.k)
+								var clis [][]string
+								clis = append(clis, []string{}, []string{"--n"}, []string{"c", "--n"}, []string{"--other"})
+								if kdef.k != ph.Bool {
+									clis = append(clis, []string{"--n=" + v}, []string{"--n", v}, []string{"-n", v}, []string{"--n=" + v, "--n=" + v}, []string{"c", "--n=" + v})
+								} else {
+									clis = append(clis, []string{"-n"}, []string{"--n", "--n"})
+								}
+								for _, e := range envs {
+									var env map[string]string
+									if e != "\x00unset" {
+										env = map[string]string{"VERIF_C12_VAR": e}
+									}
+									for _, argv := range clis {
+										if variant == 1 {
+											if len(argv) > 0 && argv[0] == "c" {
+												continue
 											}
-											if env != nil && env["VERIF_C12_VAR"] != "" && ex.Called["/n"] && ex.CalledAs["/n"] != "VERIF_C12_VAR" {
-												res.count("in_domain_command_line_overrides_environment", 1)
+											argv = append([]string{"c"}, argv...)
+										}
+										pc := &parserCase{Check: "C12", Def: def, Env: env, Argv: argv}
+										res.Evaluations++
+										res.Traces++
+										res.Transitions += int64(len(argv) + 1)
+										// zone U11 only leaves Called open after an invalid numeric text: still compare values
+										ex := ph.SpecParse(def, env, argv)
+										onlyU11 := len(ex.Unspec) == 1 && ex.Unspec[0] == "U11"
+										var msgs []string
+										if onlyU11 {
+											p := ph.Build(def, env)
+											out := p.Run(argv, false)
+											p.Close()
+											ex.Unspec = nil
+											msgs = ph.Compare(ex, out, ph.Facets{Err: true, Remaining: true, Vals: true})
+											res.count("cases_with_invalid_numeric_environment_text", 1)
+											res.count("in_domain_cases", 1)
+										} else {
+											var info specInfo
+											msgs, info = judgeSpec(pc, c06Facets, false)
+											if info.inDomain {
+												res.count("in_domain_cases", 1)
+												if env != nil && ex.CalledAs["/n"] == "VERIF_C12_VAR" {
+													res.count("in_domain_value_taken_from_environment", 1)
+												}
+												if env != nil && env["VERIF_C12_VAR"] != "" && ex.Called["/n"] && ex.CalledAs["/n"] != "VERIF_C12_VAR" {
+													res.count("in_domain_command_line_overrides_environment", 1)
+												}
 											}
 										}
-									}
-									if len(msgs) > 0 {
-										res.violate(Violation{Prop: "C12", Msg: fmt.Sprintf("%s  [%s kind=%s default=%v var=%v env=%q argv=%q]", msgs[0], def.ConfigString(), kdef.k, od, isVar, e, argv), Case: newCase("C12", def, env, argv, false), Weight: len(argv), Test: goTest(def, env, argv, msgs[0])})
-									}
-									if res.Evaluations%3000 == 1 {
-										res.sample(map[string]any{"kind": kdef.k.String(), "env": e, "argv": argv, "mode": mode})
+										if len(msgs) > 0 {
+											res.violate(Violation{Prop: "C12", Msg: fmt.Sprintf("%s  [%s kind=%s default=%v var=%v env=%q argv=%q]", msgs[0], def.ConfigString(), kdef.k, od, isVar, e, argv), Case: newCase("C12", def, env, argv, false), Weight: len(argv), Test: goTest(def, env, argv, msgs[0])})
+										}
+										if res.Evaluations%3000 == 1 {
+											res.sample(map[string]any{"kind": kdef.k.String(), "env": e, "argv": argv, "mode": mode})
+										}
 									}
 								}
 							}
